@@ -354,10 +354,28 @@ def check(ctx):
     tags = {}
     for fname, want in (("normalize_dict", "dict"), ("normalize_set", "set")):
         f = mod.func(fname)
-        rs = [r for r in ast.walk(f) if isinstance(r, ast.Return) and isinstance(r.value, ast.Tuple) and isinstance(r.value.elts[0], ast.Constant)]
-        got = {const(r.value.elts[0]) for r in rs} - {"__seen"}
+        rs = [r for r in ast.walk(f) if isinstance(r, ast.Return) and isinstance(r.value, ast.Tuple) and isinstance(r.value.elts[0], (ast.Constant, ast.IfExp))]
+        got = set()
+        for r in rs:
+            e0 = r.value.elts[0]
+            for c_ in ([e0.body, e0.orelse] if isinstance(e0, ast.IfExp) else [e0]):
+                got.add(const(c_) if isinstance(c_, ast.Constant) else unparse(c_))
+        got -= {"__seen"}
         tags[fname] = got
-        ctx.ob("TAB.type-tag", f, f"{fname} tags its token with {want!r}", got == {want}, f"tags {sorted(got)}")
+        allowed = {want} if want != "set" else {"set", "frozenset"}
+        ctx.ob("TAB.type-tag", f, f"{fname} tags its token with {want!r}", want in got and got <= allowed, f"tags {sorted(map(str, got))}")
+    # ---------------- ORD.unordered-types.registered (F-C12-9): frozenset is canonicalised like set
+    regs_u = {}
+    for fn_ in [n for n in mod.tree.body if isinstance(n, ast.FunctionDef)]:
+        for d_ in fn_.decorator_list:
+            if isinstance(d_, ast.Call) and unparse(d_.func) == "normalize_token.register" and d_.args:
+                a0 = d_.args[0]
+                for t_ in (a0.elts if isinstance(a0, ast.Tuple) else [a0]):
+                    regs_u[unparse(t_)] = fn_
+    for ty_ in ("set", "frozenset"):
+        fn_ = regs_u.get(ty_)
+        ok = fn_ is not None and any(isinstance(c_, ast.Call) and eqv(c_.func, "sorted") for c_ in ast.walk(fn_))
+        ctx.ob("ORD.unordered-types.registered", fn_ or mod.func("normalize_set"), f"{ty_} is registered on normalize_token with a normaliser that sorts the elements", ok, "" if ok else f"{ty_} falls through to normalize_object -> pickle, which writes the elements in iteration order: equal {ty_}s built in different orders (and, for str elements, runs with different hash seeds) get different tokens")
     f = mod.func("normalize_seq")
     ok = (all(Pat("(type(seq).__name__, _normalize_seq_func(seq))").match(r.value) is not None for r in returns(f)) and bool(returns(f)))
     ctx.ob("TAB.type-tag", f, "normalize_seq tags its token with the sequence type name", ok)
